@@ -76,7 +76,11 @@ func (c09Sys) Root() *c09State {
 	return s
 }
 
-func (c09Sys) Digest(s *c09State) [32]byte { return s.w.Digest(s.ctx) }
+// the model is part of the state key: a change that turns an operation into a no-op on the stores must
+// not make the successor look like an already visited state (its model differs, and Check has to see it)
+func (c09Sys) Digest(s *c09State) [32]byte {
+	return s.w.Digest(s.ctx, []byte(fmt.Sprint(s.nextL1, s.nextL2, s.bal, s.supply, s.pairs)))
+}
 
 func dn(d string) string {
 	switch d {
